@@ -121,7 +121,7 @@ class HTMLScraper(HTMLReader, BaseHTMLScraper):
             result_meta_info = {}
 
         if result_meta_info.get('robots_no_follow'):
-            link_contexts.discard(frozenset(
+            link_contexts.difference_update(tuple(
                 context for context in link_contexts if context.linked
             ))
 
@@ -669,5 +669,5 @@ class ElementWalker(object):
         return (
             element.tag == 'meta'
             and element.attrib.get('name', '').lower() == 'robots'
-            and 'nofollow' in element.attrib.get('value', '').lower()
+            and 'nofollow' in element.attrib.get('content', '').lower()
         )
